@@ -119,6 +119,13 @@ def label_keys(kind, ref, full=True):
                 has_abs = any(x is not None and lk(x) not in ref.pos for x in (a, b))
                 keys.append(('label-slice-absent-end' if has_abs else 'label-slice', slice(a, b, c)))
     keys += [('mask', m) for m in U.mask_keys(n)]
+    if kind == 'ih' and n:
+        # Boolean Series keys labelled by a hierarchy: aligned, reversed (still tree-shaped), partial
+        for bits in itertools.product((False, True), repeat=n):
+            keys.append(('bool-series', sf.Series(list(bits), index=sf.IndexHierarchy.from_labels(labels))))
+            if n > 1:
+                keys.append(('bool-series-permuted', sf.Series(list(bits)[::-1], index=sf.IndexHierarchy.from_labels(labels[::-1]))))
+                keys.append(('bool-series-partial', sf.Series(list(bits[:n - 1]), index=sf.IndexHierarchy.from_labels(labels[:n - 1]))))
     if kind != 'ih':
         # Boolean Series keys: aligned, permuted, partial (missing labels count as False), with an extra unknown label
         for bits in itertools.product((False, True), repeat=n):
